@@ -244,15 +244,60 @@ def _entry_side(g, dg, rv):
     return None
 
 
+def _amount_locals(g, dg, diff_adt):
+    out = set()
+    for b, i, s in g.stmts():
+        rv = s.get("rv") or {}
+        if rv.get("k") == "cast" and rv.get("ty") == "u32":
+            o = dg.origin_op(rv["op"])
+            if o.get("k") == "rv" and o["rv"]["k"] == "discr" and o["rv"]["of"] == diff_adt:
+                out.add(s["place"]["l"])
+    return out
+
+
+def _accumulations(g, dg, diff_adt):
+    """[(block, 'add'|'sub')] where a recorded difference (`diff as u32`) is added to / subtracted from something"""
+    am = _amount_locals(g, dg, diff_adt)
+
+    def is_amount(op):
+        l = op_local(op)
+        return l is not None and (l in am or dg.origin(l).get("l") in am)
+    out = []
+    for b, i, s in g.stmts():
+        rv = s.get("rv") or {}
+        if rv.get("k") == "bin" and rv["op"] in ("Add", "AddWithOverflow", "Sub", "SubWithOverflow") and (is_amount(rv["a"]) or is_amount(rv["b"])):
+            out.append((b, "add" if rv["op"].startswith("Add") else "sub"))
+    for b, t in g.calls():
+        last = FL.short(callee(t) or callee_def(t) or "").rsplit("::", 1)[-1]
+        if last in ("saturating_add", "wrapping_add", "checked_add", "saturating_sub", "wrapping_sub", "checked_sub") and len(t["args"]) == 2 and is_amount(t["args"][1]):
+            out.append((b, "add" if "add" in last else "sub"))
+    return out
+
+
 def scans(F, res, rule="U3"):
+    """per reader: every comparison of a recorded position with the column, reduced to the question "when is the entry counted?";
+    what the counted amounts do to the result (added / subtracted, directly or through an accumulator that is then added /
+    subtracted); and whether the column compared with is the running estimate or stays fixed while the table is scanned"""
     diff_adt = "glas::vfs::CodeUnitsDiff"
     verdict = {}
     for name in ("pos_for_line_col", "line_col_for_pos"):
         f = F.fn(LM + name)
-        units = [f] + [F.fns[c] for c in F.closures_of(f.path) if F.fns[c].blocks]
-        comps = []
+        units = [F.fns[c] for c in F.with_closures(f.path) if F.fns[c].blocks]
+        comps, sign = [], set()
         for g in units:
             dg = FL.Defs(g)
+            acc = _accumulations(g, dg, diff_adt)
+            sign |= {sg for b, sg in acc}
+            # an accumulator of amounts that is afterwards added to / subtracted from the column
+            for b, t in g.calls():
+                if FL.short(callee(t) or callee_def(t) or "").rsplit("::", 1)[-1] == "sum":
+                    dl = t["dest"]["l"]
+                    for b2, i2, s2 in g.stmts():
+                        rv2 = s2.get("rv") or {}
+                        if rv2.get("k") == "bin" and rv2["op"] in ("Add", "AddWithOverflow", "Sub", "SubWithOverflow"):
+                            lb = op_local(rv2["b"])
+                            if lb == dl or (lb is not None and dg.origin(lb).get("l") == dl):
+                                sign.add("add" if rv2["op"].startswith("Add") else "sub")
             for b, i, s in g.stmts():
                 rv = s.get("rv") or {}
                 if rv.get("k") != "bin" or rv["op"] not in CMP:
@@ -260,63 +305,97 @@ def scans(F, res, rule="U3"):
                 ent = _entry_side(g, dg, rv)
                 if ent is None:
                     continue
-                comps.append((g, dg, b, s, ent))
-        # direction: what happens to the amounts
-        sign = set()
+                # which outcome of the comparison counts the entry?
+                counted_on = None
+                dest = s["place"]["l"]
+                if g.kind == "Closure" and (dest == 0 or any(s2["k"] == "assign" and s2["place"]["l"] == 0 and not s2["place"]["p"] and
+                                                               (s2.get("rv") or {}).get("k") == "use" and op_local(s2["rv"]["op"]) == dest for _b, _i, s2 in g.stmts())):
+                    counted_on = True            # a predicate closure (take_while / filter): kept while true
+                else:
+                    t = g.term(b)
+                    if t["k"] == "switch" and op_local(t["op"]) == dest:
+                        f_t = [x for v, x in t["targets"] if int(v) == 0]
+                        tr = t["otherwise"]
+                        fa = f_t[0] if f_t else None
+                        accb = {ab for ab, _sg in acc}
+                        heads = {hd for tl, hd in g.back_edges()}
+
+                        def reaches(start):
+                            seen, st = set(), [start]
+                            while st:
+                                x = st.pop()
+                                if x in seen or x == b:
+                                    continue
+                                seen.add(x)
+                                if x in accb:
+                                    return True
+                                if x in heads:
+                                    continue
+                                st.extend(g.succ(x))
+                            return False
+                        rt, rf = reaches(tr), (reaches(fa) if fa is not None else False)
+                        if rt != rf:
+                            counted_on = rt
+                comps.append((g, dg, b, s, ent, counted_on))
+        # with an explicit accumulator (`before += diff; .. col -= before`) the sign is that of the final operation on the column
         for g in units:
             dg = FL.Defs(g)
-            amount_locals = set()
+            am = _amount_locals(g, dg, diff_adt)
+
+            def norm(l):
+                if l is None:
+                    return None
+                o = dg.origin(l)
+                while o.get("k") == "field" and o.get("base"):
+                    o = o["base"]
+                return o.get("l", l)
+            accs = set()
             for b, i, s in g.stmts():
                 rv = s.get("rv") or {}
-                if rv.get("k") == "cast" and rv.get("ty") == "u32":
-                    o = dg.origin_op(rv["op"])
-                    if o.get("k") == "rv" and o["rv"]["k"] == "discr" and o["rv"]["of"] == diff_adt:
-                        amount_locals.add(s["place"]["l"])
+                if rv.get("k") == "bin" and rv["op"] in ("Add", "AddWithOverflow"):
+                    lb = op_local(rv["b"])
+                    if lb is not None and (lb in am or norm(lb) in am):
+                        accs.add(norm(op_local(rv["a"])))
+            accs.discard(None)
+            final = set()
             for b, i, s in g.stmts():
                 rv = s.get("rv") or {}
-                if rv.get("k") == "bin" and rv["op"] in ("Add", "AddWithOverflow", "Sub", "SubWithOverflow"):
-                    for side in ("a", "b"):
-                        l = op_local(rv[side])
-                        if l in amount_locals or (l is not None and dg.origin(l).get("l") in amount_locals):
-                            sign.add("add" if rv["op"].startswith("Add") else "sub")
-            for b, t in g.calls():
-                c = FL.short(callee(t) or callee_def(t) or "")
-                last = c.rsplit("::", 1)[-1]
-                if last in ("saturating_add", "wrapping_add", "checked_add", "saturating_sub", "wrapping_sub", "checked_sub") and len(t["args"]) == 2:
-                    l = op_local(t["args"][1])
-                    if l in amount_locals or (l is not None and dg.origin(l).get("l") in amount_locals):
-                        sign.add("add" if "add" in last else "sub")
-                if last == "sum":
-                    # the sum of the amounts is then added or subtracted in the parent
-                    dl = t["dest"]["l"]
-                    for b2, i2, s2 in g.stmts():
-                        rv2 = s2.get("rv") or {}
-                        if rv2.get("k") == "bin" and rv2["op"] in ("Add", "AddWithOverflow", "Sub", "SubWithOverflow") and \
-                                (op_local(rv2["b"]) == dl or (op_local(rv2["b"]) is not None and dg.origin(op_local(rv2["b"])).get("l") == dl)):
-                            sign.add("add" if rv2["op"].startswith("Add") else "sub")
-        verdict[name] = (comps, sign)
+                if rv.get("k") == "bin" and rv["op"] in ("Sub", "SubWithOverflow", "Add", "AddWithOverflow"):
+                    if norm(op_local(rv["b"])) in accs and norm(op_local(rv["a"])) not in accs and op_local(rv["b"]) not in am and norm(op_local(rv["b"])) not in am:
+                        final.add("add" if rv["op"].startswith("Add") else "sub")
+            if final:
+                sign = final
         strict = []
-        for g, dg, b, s, ent in comps:
+        for g, dg, b, s, ent, on in comps:
             op = s["rv"]["op"]
-            strict.append((op == "Lt" and ent == "a") or (op == "Gt" and ent == "b"))
-        res.ob(rule, "strict/" + name, "%s counts the characters that lie strictly before the target: recorded position < column (a character "
-               "*at* the target position is not before it)" % name, bool(comps) and all(strict), where=f.loc(comps[0][3]["ln"]) if comps else f.loc(),
-               how="comparisons of a recorded position with the column: %s" % [(s["rv"]["op"], "entry on the %s" % ("left" if e == "a" else "right")) for g, dg, b, s, e in comps])
+            lt = (op == "Lt" and ent == "a") or (op == "Gt" and ent == "b")        # entry < column
+            ge = (op == "Ge" and ent == "a") or (op == "Le" and ent == "b")        # entry >= column
+            strict.append((lt and on is True) or (ge and on is False))
+        res.ob(rule, "strict/" + name, "%s counts exactly the characters that lie strictly before the target: an entry is counted when its "
+               "recorded position < the column (a character *at* the target position is not before it)" % name, bool(comps) and all(strict),
+               where=f.loc(comps[0][3]["ln"]) if comps else f.loc(),
+               how="comparisons of a recorded position with the column: %s" % [(s["rv"]["op"], "entry on the %s" % ("left" if e == "a" else "right"),
+                                                                                 "counted when %s" % on) for g, dg, b, s, e, on in comps])
         # is the column operand changed while scanning?
         changing = []
-        for g, dg, b, s, ent in comps:
+        for g, dg, b, s, ent, on in comps:
             other = "b" if ent == "a" else "a"
             col_l = op_local(s["rv"][other])
             chg = None
-            if g.kind == "Closure":
-                o = dg.origin_op(s["rv"][other])
+            o = dg.origin_op(s["rv"][other])
+            if g.kind == "Closure" and o.get("k") == "arg" and o.get("n", 0) >= 2:
+                # the accumulator parameter of a fold closure: the running value
+                par = F.fns.get(g.d.get("direct_parent"))
+                folded = par is not None and any(FL.short(callee(t) or callee_def(t) or "").rsplit("::", 1)[-1] in ("fold", "try_fold") and
+                                                 any((FL.Defs(par).origin_op(a).get("rv") or {}).get("closure") == g.path for a in t["args"][1:])
+                                                 for _b, t in par.calls())
+                chg = True if folded else None
+            elif g.kind == "Closure":
                 idx = FL.closure_env_field(o)
                 chg = False
                 if idx is not None:
                     pf, po = FL.upvar_origin(F, g.path, idx)
                     if pf is not None and po.get("l") is not None:
-                        # defs of the captured local that can execute between the creation of the closure and the end of the scan:
-                        # those inside a loop that also contains the closure creation
                         cl_bbs = [b2 for b2, i2, s2 in pf.stmts() if (s2.get("rv") or {}).get("closure") == g.path]
                         dpf = FL.Defs(pf)
                         for tl, hd in pf.back_edges():
@@ -396,23 +475,30 @@ def lines(F, res, rule="U4"):
             how = "binary search over the line starts (Ok(i) | Err(i) shapes are not analysed further)"
     res.ob(rule, "line-of-offset", "the line of an offset is the number of line starts <= the offset, minus one: an offset that *is* a line start "
            "belongs to that line", ok, where=f.loc(pp[0][1]["ln"]) if pp else f.loc(), how=how)
-    # writer: a line starts behind each '\n'; the first line starts at 0
+    # writer: a line starts behind each '\n' (whatever the shape: iterator chain or push loop)
     nm = F.fn(LM + "normalize")
-    units = [nm] + [F.fns[c] for c in F.closures_of(nm.path) if F.fns[c].blocks]
-    nl, plus1, zero = False, False, False
+    from lib import inline as IL
+    nmi = IL.inlined(F, nm, want=lambda p: p.startswith(LM) and "{closure" not in p and
+                     p.rsplit("::", 1)[-1] not in ("normalize", "pos_for_line_col", "line_col_for_pos", "end_col_for_line", "last_line"), depth=2)
+    helper_paths = {p for p in F.with_helpers(nm.path, depth=2) if p.startswith(LM)}
+    units = [nmi] + [F.fns[c] for hp in sorted(helper_paths | {nm.path}) for c in F.with_closures(hp) if F.fns[c].blocks and c != hp]
+    nl, plus1 = False, False
     for g in units:
         for b, i, s in g.stmts():
             rv = s.get("rv") or {}
-            if rv.get("k") == "bin" and rv["op"] in ("Eq",) and 10 in (_const_int(rv["a"]), _const_int(rv["b"])):
+            if rv.get("k") == "bin" and rv["op"] in ("Eq", "Ne") and 10 in (_const_int(rv["a"]), _const_int(rv["b"])):
                 nl = True
-            if rv.get("k") == "bin" and rv["op"] in ("Add", "AddWithOverflow") and 1 in (_const_int(rv["a"]), _const_int(rv["b"])) and g.kind == "Closure" \
-                    and "u32" in str(g.local_ty(0) or ""):
-                plus1 = True
-            if rv.get("k") == "agg" and (rv.get("adt") or "").endswith("option::Option") and rv.get("variant") == "Some" and rv["ops"] and \
-                    _const_int(rv["ops"][0]) == 0 and g is nm:
-                zero = True
-    res.ob(rule, "line-starts", "normalize records 0 and the index behind every `\\n` as the line starts", nl and plus1 and zero, where=nm.loc(),
-           how="compares a byte with 10: %s; maps its index to index + 1: %s; starts the list with 0: %s" % (nl, plus1, zero))
+            if rv.get("k") == "bin" and rv["op"] in ("Add", "AddWithOverflow") and 1 in (_const_int(rv["a"]), _const_int(rv["b"])):
+                for side in ("a", "b"):
+                    l = op_local(rv[side])
+                    if l is not None and g.local_ty(l) == "u32":
+                        plus1 = True
+        for b in sorted(g.reachable()):
+            t = g.term(b)
+            if t["k"] == "switch" and op_local(t["op"]) is not None and g.local_ty(op_local(t["op"])) == "u8" and any(int(v) == 10 for v, x in t["targets"]):
+                nl = True
+    res.ob(rule, "line-starts", "normalize looks for `\\n` and records the index behind it (index + 1) as a line start", nl and plus1, where=nm.loc(),
+           how="compares a byte with 10: %s; adds 1 to a u32 index: %s" % (nl, plus1))
 
 
 # ---------------------------------------------------------------------------------------------- U5
@@ -506,53 +592,70 @@ def positions(F, res, rule="U5"):
 # ---------------------------------------------------------------------------------------------- U6
 CONVERTERS = ("to_range", "to_hover", "to_completion_item", "to_diagnostics", "to_prepare_rename_response", "to_document_highlight", "to_text_edit",
               "to_semantic_tokens")
-FILE_SOURCES = ("convert::from_file_pos", "convert::from_file", "Vfs::file_for_uri", "Vfs::file_for_path")
+
+
+def _is_file_source(c):
+    """a call that turns a document identifier / URI / path into the file (and its line map): convert::from_* and Vfs::file_for_*"""
+    last = c.rsplit("::", 1)[-1]
+    return (c.startswith(("convert::", "glas::convert::")) and last.startswith("from_")) or (c.startswith(("Vfs::", "glas::vfs::Vfs::")) and last.startswith("file_for_"))
 
 
 def _file_root(F, f, d, op, depth=0):
     """the call(s) that the file identity behind an operand (a FileId, a FilePos, a line map) goes back to: a set of
-    ('call', id(term), short callee) | ('arg', n) | ('field-of-arg', n, name) | ('closure-arg', n) | ('other', k)"""
-    o = d.origin_op(op, through_calls=("Deref>::deref", "Deref::deref", "Clone>::clone", "Clone::clone", "FilePos::new", "FileRange::new"))
-    fields = []
+    ('call', id(term), short callee, path of the function containing the call) | ('other', what). Parameters of helper functions
+    are followed to the arguments at their call sites (two levels), captured variables to the enclosing function."""
+    o = d.origin_op(op, through_calls=("Deref>::deref", "Deref::deref", "Clone>::clone", "Clone::clone", "FilePos::new", "FileRange::new", "AsRef", "as_ref", "Borrow"))
     while o.get("k") == "field":
         pr = [e for e in o.get("proj", []) if isinstance(e, dict) and ("f" in e)]
         base = o["base"]
         if base.get("k") == "agg" and base["rv"].get("agg") == "tuple" and pr and depth < 8:
-            # a component of a tuple built here: continue with that component (and the remaining projections are dropped: ids are leaves)
             comp = base["rv"]["ops"][pr[0]["f"]]
             if op_place(comp) is not None:
                 return _file_root(F, f, d, comp, depth + 1)
-        fields = [e.get("n", e.get("f")) for e in pr] + fields
+        if base.get("k") == "arg" and f.kind == "Closure" and base.get("n") == 1:
+            idx = FL.closure_env_field(o)
+            if idx is not None and depth < 8:
+                pf, po = FL.upvar_origin(F, f.path, idx)
+                if pf is not None and po.get("l") is not None:
+                    return _file_root(F, pf, FL.Defs(pf), {"cp": {"l": po["l"], "p": []}}, depth + 1)
         o = base
     if o.get("k") == "call":
         c = FL.short(callee(o["t"]) or callee_def(o["t"]) or "")
-        if c.endswith("Vfs::line_map_for_file") or c.endswith("Vfs::uri_for_file") or c.endswith("Vfs::content_for_file"):
+        if c.endswith(("Vfs::line_map_for_file", "Vfs::uri_for_file", "Vfs::content_for_file")):
             return _file_root(F, f, d, o["t"]["args"][1], depth + 1)
         if c.endswith(("Try>::branch", "Try::branch", "FromResidual")) and o["t"]["args"]:
             return _file_root(F, f, d, o["t"]["args"][0], depth + 1)
-        return {("call", id(o["t"]), c)}
+        return {("call", id(o["t"]), c, f.path)}
     if o.get("k") == "arg":
         if f.kind == "Closure":
-            if o["n"] == 1:
-                idx = FL.closure_env_field({"k": "field", "base": o, "proj": [{"f": fields[0]}]}) if fields and isinstance(fields[0], int) else None
-                return {("closure-env", tuple(map(str, fields)))}
-            return {("closure-arg", o["n"], tuple(str(x) for x in fields[:1]))}
-        return {("arg", o["n"], tuple(str(x) for x in fields[:1]))}
+            return {("other", "closure parameter %d of %s" % (o["n"], FL.short(f.path)))}
+        if depth < 6:
+            out, callers = set(), 0
+            for p, g in _glas_fns(F):
+                dg = None
+                for b, t in g.calls():
+                    if (callee(t) or "") == f.path and len(t["args"]) >= o["n"]:
+                        dg = dg or FL.Defs(g)
+                        callers += 1
+                        out |= _file_root(F, g, dg, t["args"][o["n"] - 1], depth + 2)
+            if callers:
+                return out
+        return {("other", "parameter %d of %s" % (o["n"], FL.short(f.path)))}
     if o.get("k") == "multi":
         out = set()
         for dd in o["defs"]:
             if dd[2] == "call":
-                out.add(("call", id(dd[3]), FL.short(callee(dd[3]) or "")))
+                out.add(("call", id(dd[3]), FL.short(callee(dd[3]) or ""), f.path))
             else:
                 rv = dd[3]["rv"]
-                if rv.get("k") in ("use", "cast") and isinstance(rv.get("op"), dict) and op_place(rv["op"]) is not None:
-                    out |= _file_root(F, f, d, rv["op"], depth + 1) if depth < 6 else {("other", "deep")}
-                elif rv.get("k") == "agg" and rv.get("agg") == "tuple":
+                if rv.get("k") in ("use", "cast") and isinstance(rv.get("op"), dict) and op_place(rv["op"]) is not None and depth < 6:
+                    out |= _file_root(F, f, d, rv["op"], depth + 1)
+                elif rv.get("k") == "agg" and rv.get("agg") == "tuple" and depth < 6:
                     for x in rv["ops"]:
-                        if op_place(x) is not None and depth < 6:
+                        if op_place(x) is not None:
                             out |= _file_root(F, f, d, x, depth + 1)
                 else:
-                    out.add(("other", rv.get("k")))
+                    out.add(("other", str(rv.get("k"))))
         return out
     if o.get("k") == "agg" and o["rv"].get("agg") == "tuple" and depth < 6:
         out = set()
@@ -566,9 +669,8 @@ def _file_root(F, f, d, op, depth=0):
 def same_file(F, res, rule="U6"):
     n = 0
     for p, f in _glas_fns(F):
-        if not (p.startswith("glas::handler::") or p.startswith("glas::server::")):
+        if p.startswith("glas::convert::"):
             continue
-        d = None
         conv = []
         for b, t in f.calls():
             c = callee(t) or ""
@@ -577,7 +679,8 @@ def same_file(F, res, rule="U6"):
         if not conv:
             continue
         d = FL.Defs(f)
-        # the file(s) the analysis was asked about in this unit and its parent chain
+        # the file(s) the analysis was asked about: in this unit, in the functions it is a closure of, and - when this is a
+        # helper that is handed the file - at its call sites (through _file_root's parameter following)
         units = [f]
         par = f
         while par.kind == "Closure" and par.d.get("direct_parent") in F.fns:
@@ -590,27 +693,41 @@ def same_file(F, res, rule="U6"):
                 c = callee(t) or ""
                 if c.startswith("ide::ide::Analysis::") and len(t["args"]) >= 2:
                     asked |= _file_root(F, u, du, t["args"][1])
+        if not asked:
+            # a pure conversion helper (`fn semantic_tokens(line_map, hls)`): the question was asked by its callers
+            for q, g in _glas_fns(F):
+                if any((callee(t) or "") == units[-1].path for b, t in g.calls()):
+                    dg = FL.Defs(g)
+                    for b, t in g.calls():
+                        c = callee(t) or ""
+                        if c.startswith("ide::ide::Analysis::") and len(t["args"]) >= 2:
+                            asked |= _file_root(F, g, dg, t["args"][1])
         for k, (b, t, name) in enumerate(conv):
             n += 1
             lm_arg = t["args"][2] if name == "to_diagnostics" else t["args"][0]
             roots = _file_root(F, f, d, lm_arg)
-            if f.kind == "Closure" and any(r[0] in ("closure-env",) for r in roots):
-                # the map was captured: find it in the parent
-                o = d.origin_op(lm_arg, through_calls=("Deref>::deref", "Deref::deref"))
-                while o.get("k") == "field" and o["base"].get("k") != "arg":
-                    o = o["base"]
-                idx = FL.closure_env_field(o)
-                if idx is not None:
-                    pf, po = FL.upvar_origin(F, f.path, idx)
-                    if pf is not None and po.get("l") is not None:
-                        roots = _file_root(F, pf, FL.Defs(pf), {"cp": {"l": po["l"], "p": []}})
-            good = bool(roots) and all(r[0] == "call" and r[2].endswith(FILE_SOURCES) for r in roots)
-            agree = not asked or bool(roots & asked)
+            good = bool(roots) and all(r[0] == "call" and _is_file_source(r[2]) for r in roots)
+            # per function that holds the source call: the map and the question go back to the same call there
+            agree = True
+            if asked:
+                by_fn = {}
+                for r in roots:
+                    if r[0] == "call":
+                        by_fn.setdefault(r[3], set()).add(r[1])
+                asked_fn = {}
+                for r in asked:
+                    if r[0] == "call":
+                        asked_fn.setdefault(r[3], set()).add(r[1])
+                for fnp, ids in by_fn.items():
+                    if fnp in asked_fn and not (ids & asked_fn[fnp]):
+                        agree = False
+                if not (set(by_fn) & set(asked_fn)):
+                    agree = False
             res.ob(rule, "line-map/%s/%s/%d" % (FL.short(p), name, k), "the line map handed to %s is that of the file the answer is about: it goes back to "
-                   "the same from_file / from_file_pos / file_for_uri result as the file the analysis was asked about" % name, good and agree,
-                   where=f.loc(t["ln"]), how="line map from %s; analysis asked about %s" % (sorted(r[2] if r[0] == "call" else str(r) for r in roots),
-                                                                                            sorted(r[2] if r[0] == "call" else str(r) for r in asked)))
-    res.floor("converter calls with a line map in handlers and server", n, 7)
+                   "the same file look-up (convert::from_* / Vfs::file_for_*) as the file the analysis was asked about" % name, good and agree,
+                   where=f.loc(t["ln"]), how="line map from %s; analysis asked about %s" % (sorted({r[2] if r[0] == "call" else r[1] for r in roots}),
+                                                                                            sorted({r[2] if r[0] == "call" else r[1] for r in asked})))
+    res.floor("converter calls with a line map outside convert.rs", n, 7)
     # to_location / to_workspace_edit: the map is looked up by the file that accompanies the range
     tl = F.fn("glas::convert::to_location")
     d = FL.Defs(tl)
